@@ -83,6 +83,14 @@ def check(src, rep):
             def on_await(stmt, e, st, ts=ts, f=f):
                 from sa.asyncts import SETTLED, call_name
                 ok_aw = False
+                if isinstance(e, ast.Call) and call_name(e) in ("wait", "wait_for") and e.args:
+                    tmo = [k for k in e.keywords if k.arg == "timeout" and not (isinstance(k.value, ast.Constant) and k.value.value is None)]
+                    mem_ = ts.names_in(e.args[0], st)
+                    if (tmo or (call_name(e) == "wait_for" and len(e.args) > 1)) and any(f".{tc.name}(" in ts.created.get(m_, ("",))[0] for m_ in mem_):
+                        nonlocal_find.append(1)
+                        rep.violation("R5", f"{MOD}.ConnectionManager.{f.name}", "connect-timeout", "the connect task - which sleeps the back-off before it connects - is raced against a timeout and cancelled when "
+                                      "it expires: once the back-off delay exceeds the timeout no attempt is ever made again (and failure() is never reached, so the delay never changes)", file, stmt.lineno,
+                                      witness=ast.unparse(e)[:120])
                 if isinstance(e, ast.Call) and call_name(e) == "wait" and e.args:
                     members = ts.names_in(e.args[0], st)
                     raced = any(f"{CLOSING}.wait()" in ts.created.get(m_, ("",))[0] for m_ in members)
